@@ -116,74 +116,111 @@ def main(pid, tier, seed, replay_path=None):
         base_cases = [replay_path]
     else:
         n = 90 if tier == "quick" else 1500
-        base_cases = gen.gen_batch(d, seed + 500, n, 10, profiles=("opt", "grid", "tiny", "loops", "wide", "grid300"))
+        base_cases = gen.gen_batch(d, seed + 500, n, 10, profiles=("opt", "grid", "tiny", "loops", "wide", "grid300", "fwlim"))
     pairs = []
     os.makedirs(d, exist_ok=True)
     skipped = 0
-    for ci, c in enumerate(base_cases):
-        ds, ops = parse_case(c)
-        ops = [o for o in ops if o.split()[0] in ("route", "access")]
-        tt = trip_times(ds)
-        if not tt or not ops:
-            continue
-        lo, hi = min(tt), max(tt)
-        # margins: minimum waiting (<= 900) + access/egress rows (<= 600) + transfer walks do not matter for range
-        margin = 2000
-        for k in range(3):
-            choice = rng.randint(0, 7)
-            t_req = int(ops[0].split()[2])
-            if choice == 0:
-                delta = 3600 * rng.randint(-30, 30)
-            elif choice == 1:
-                delta = (3600 - t_req % 3600) + rng.randint(-2, 2)           # request across the next hour boundary
-            elif choice == 2:
-                delta = -(t_req % 3600) + rng.randint(-2, 2)                  # request to the previous hour boundary
-            elif choice == 3:
-                delta = 86400 - t_req + rng.randint(-60, 60)                  # across 24:00
-            elif choice == 4:
-                delta = -(lo - margin)                                        # next to 0:00
-            elif choice == 5:
-                delta = 115199 - margin - hi                                  # next to 32:00
-            elif choice == 6:
-                delta = rng.randint(-20000, 20000)
-            else:
-                delta = (3600 - lo % 3600) + rng.randint(-1, 1)               # first vehicle across an hour boundary
-            if delta == 0:
-                continue
-            ok = (lo + delta - margin >= 0 and hi + delta + margin < 115200 and lo - margin >= 0 and hi + margin < 115200)
-            ops_ok = [o for o in ops if 0 <= int(o.split()[2]) < 115200 and 0 <= int(o.split()[2]) + delta < 115200]
-            if not ok or not ops_ok:
-                skipped += 1
-                continue
-            p1 = os.path.join(d, "p%04d_%d_a.case" % (ci, k))
-            p2 = os.path.join(d, "p%04d_%d_b.case" % (ci, k))
-            with open(p1, "w") as f:
-                f.write("\n".join(ds + ops_ok) + "\n")
-            with open(p2, "w") as f:
-                f.write("\n".join(shift_dataset(ds, delta) + [shift_op(o, delta) for o in ops_ok]) + "\n")
-            pairs.append((p1, p2, delta))
-    allcases = [p for pr in pairs for p in pr[:2]]
-    recs = run.run_batch(allcases, l2, dr, d + ".out")
-    by = {}
-    for r in recs:
-        by.setdefault(r["case"], []).append(r)
-    evals, fails, nontriv, diffs = 0, [], set(), []
-    crossing = 0
-    for (p1, p2, delta) in pairs:
-        for a, b in zip(by.get(p1, []), by.get(p2, [])):
-            evals += 1
-            for r in (a, b):
-                if r["impl"].strip() != r["model"].strip():
-                    diffs.append(r)
-            ua = a["impl"].split(" | opt")[0].strip()
-            ub = unshift_line(b["impl"].split(" | opt")[0].strip(), delta)
-            if ua != ub:
-                fails.append((a, b, delta, ua, ub))
-            if a["impl"].split()[1] == "ok":
-                nontriv.add(a["op"] + str(delta))
-                t_req = int(a["op"].split()[2])
-                if t_req // 3600 != (t_req + delta) // 3600:
-                    crossing += 1
+    plan_state = dict(skipped=0)
+
+    def plan(base_cases, tag, choices=None):
+      out = []
+      for ci, c in enumerate(base_cases):
+          ds, ops = parse_case(c)
+          ops = [o for o in ops if o.split()[0] in ("route", "access")]
+          tt = trip_times(ds)
+          if not tt or not ops:
+              continue
+          lo, hi = min(tt), max(tt)
+          # margins: minimum waiting (<= 900) + access/egress rows (<= 600) + transfer walks do not matter for range
+          margin = 2000
+          for k in range(3):
+              choice = rng.choice(choices) if choices else rng.randint(0, 9)
+              t_req = int(ops[0].split()[2])
+              fwd_times = sorted(set(int(o.split()[2]) for o in ops if o.split()[9] == "1" and int(o.split()[2]) <= lo))
+              if choice >= 8 and fwd_times:
+                  # a departure request at EXACTLY 0:00:00 (0 is a clock value like any other, not "no time given"); every
+                  # vehicle leaves at or after the request, so all clock values stay in [0, 32 h) without the lower margin
+                  delta = -rng.choice(fwd_times)
+              elif choice >= 8:
+                  delta = -(lo - margin)
+              elif choice == 0:
+                  delta = 3600 * rng.randint(-30, 30)
+              elif choice == 1:
+                  delta = (3600 - t_req % 3600) + rng.randint(-2, 2)           # request across the next hour boundary
+              elif choice == 2:
+                  delta = -(t_req % 3600) + rng.randint(-2, 2)                  # request to the previous hour boundary
+              elif choice == 3:
+                  delta = 86400 - t_req + rng.randint(-60, 60)                  # across 24:00
+              elif choice == 4:
+                  delta = -(lo - margin)                                        # next to 0:00
+              elif choice == 5:
+                  delta = 115199 - margin - hi                                  # next to 32:00
+              elif choice == 6:
+                  delta = rng.randint(-20000, 20000)
+              else:
+                  delta = (3600 - lo % 3600) + rng.randint(-1, 1)               # first vehicle across an hour boundary
+              if delta == 0:
+                  continue
+              ok = (lo + delta - margin >= 0 and hi + delta + margin < 115200 and lo - margin >= 0 and hi + margin < 115200)
+              ops_ok = [o for o in ops if 0 <= int(o.split()[2]) < 115200 and 0 <= int(o.split()[2]) + delta < 115200]
+              if choice >= 8 and fwd_times:
+                  ok = (lo + delta >= 0 and hi + delta + margin < 115200 and hi + margin < 115200)
+                  ops_ok = [o for o in ops if o.split()[9] == "1" and int(o.split()[2]) + delta == 0]
+              if not ok or not ops_ok:
+                  plan_state["skipped"] += 1
+                  continue
+              p1 = os.path.join(d, "%s%04d_%d_a.case" % (tag, ci, k))
+              p2 = os.path.join(d, "%s%04d_%d_b.case" % (tag, ci, k))
+              with open(p1, "w") as f:
+                  f.write("\n".join(ds + ops_ok) + "\n")
+              with open(p2, "w") as f:
+                  f.write("\n".join(shift_dataset(ds, delta) + [shift_op(o, delta) for o in ops_ok]) + "\n")
+              out.append((p1, p2, delta))
+      return out
+
+    pairs = plan(base_cases, "p")
+    skipped = plan_state["skipped"]
+    def evaluate(pairs, outdir):
+        allcases = [p for pr in pairs for p in pr[:2]]
+        recs = run.run_batch(allcases, l2, dr, outdir)
+        by = {}
+        for r in recs:
+            by.setdefault(r["case"], []).append(r)
+        evals, fails, nontriv, diffs = 0, [], set(), []
+        crossing = 0
+        for (p1, p2, delta) in pairs:
+            for a, b in zip(by.get(p1, []), by.get(p2, [])):
+                evals += 1
+                for r in (a, b):
+                    if r["impl"].strip() != r["model"].strip():
+                        diffs.append(r)
+                ua = a["impl"].split(" | opt")[0].strip()
+                ub = unshift_line(b["impl"].split(" | opt")[0].strip(), delta)
+                if ua != ub:
+                    fails.append((a, b, delta, ua, ub))
+                if a["impl"].split()[1] == "ok":
+                    nontriv.add(a["op"] + str(delta))
+                    t_req = int(a["op"].split()[2])
+                    if t_req // 3600 != (t_req + delta) // 3600:
+                        crossing += 1
+        return by, evals, fails, nontriv, diffs, crossing
+
+    by, evals, fails, nontriv, diffs, crossing = evaluate(pairs, d + ".out")
+    widened = 0
+    if (diffs or not po["ok"]) and not fails and not replay_path:
+        # a broken obligation or correspondence: widen the search for a failing pair -- more datasets, first-waiting limits on
+        # most requests, offsets taken from the boundary kinds only (hour marks, 24:00, next to 0:00 / 32:00, exactly 0:00:00)
+        for extra in range(1, 4 if tier == "quick" else 9):
+            dw = "%s-w%d" % (d, extra)
+            shutil.rmtree(dw, ignore_errors=True)
+            more_cases = gen.gen_batch(dw, seed + 500 + 1000 * extra, 120 if tier == "quick" else 400, 10,
+                                       profiles=("fwlim", "grid", "fwlim", "opt", "fwlim", "loops", "tiny"))
+            more = plan(more_cases, "w%d_" % extra, choices=[8, 9, 8, 9, 1, 2, 3, 4, 5, 7])
+            by2, ev2, fails2, nt2, diffs2, cr2 = evaluate(more, dw + ".out")
+            widened += ev2
+            if fails2:
+                fails = fails2
+                break
     # L1 index correspondence from the shared routes batch
     batch = cl.routes_batch(seed, tier, l2, dr)
     idx = [r for r in batch if r["op"].startswith("index")]
@@ -230,10 +267,10 @@ def main(pid, tier, seed, replay_path=None):
     cov = dict(obligations=max(1, po["obligations"]), discharged=po["discharged"], checker_cmd=po["checker_cmd"], trusted_base=cl.TRUSTED_BASE,
                theorems=po["theorems"], print_assumptions=po["assumptions"], open_statements=cl_open(pid),
                evaluations=evals, distinct_nontrivial=len(nontriv),
-               rule="pairs (dataset, request) / (dataset+offset, request+offset) run on the implementation; offsets move the request or the first vehicle across hour boundaries, across 24:00, next to 0:00 and 32:00; pairs whose clock values (with a 2000 s margin for waiting and walks) leave [0,32h) are skipped; non-trivial = successful answer",
+               rule="pairs (dataset, request) / (dataset+offset, request+offset) run on the implementation; offsets move the request or the first vehicle across hour boundaries, across 24:00, next to 0:00 and 32:00, a departure request at exactly 0:00:00; pairs whose clock values (with a 2000 s margin for waiting and walks) leave [0,32h) are skipped; non-trivial = successful answer",
                samples=samples or [dict(note="no pair generated")], pairs=len(pairs), skipped_out_of_range=skipped, request_changes_hour=crossing,
                index_tables_compared=len(idx), index_disagreements=len(idx_diff), shifted_pair_disagreements=len(fails),
-               correspondence_disagreements=len(diffs), exhaustive=False)
+               correspondence_disagreements=len(diffs), widened_search_pairs=widened, exhaustive=False)
     cl.write_evidence(pid, tier, seed, "proof", cov, ["index half proved; whole-pipeline shift relation is exercised on the implementation (metamorphic), see open_statements"],
                       time.time() - t0, len(viol))
     print("%s %s: obligations %d/%d, %d shifted evaluations (%d successes), %d index tables (%d differ from the model), %d violations, %.1fs" %
